@@ -32,6 +32,7 @@ def call(name, *args):
 def run(chk, tier):
     prog, info = common.program("all")
     common.note_extraction(chk, info, prog)
+    common.vacuity(chk, ['R-TABLE', 'R-WIRE'])
     chk.explanation = ("R-LAYOUT on the six wire structs of ICD tables XVII-A/B/E/F/H and both deserialize helpers' fixint/big-endian option chain. The decoder's "
                        "loop is summarised by value numbering: the pointer table is count x 4 bytes read right after the header, each pointer a big-endian "
                        "u32; every iteration seeks to (position at function entry) + zext(pointer), reads the 4-byte block id, rewinds by exactly its wire size, "
